@@ -554,6 +554,11 @@ fn judge(input: &Input, cont_depth: usize) -> Verdict {
                         if f.prop == Prop::C02 {
                             fails.push((format!("C02:deserialized-world-confuses-identifiers ({})", f.key), f.detail.clone()));
                         }
+                        // ... and one whose identifier index and storage disagree (two tables for one component set, a row
+                        // without a slot, ...) breaks C13, whose histories include deserialization
+                        if f.prop == Prop::C13 {
+                            fails.push((format!("C13:deserialized-world-index-and-storage-disagree ({})", f.key), f.detail.clone()));
+                        }
                         fails.push((format!("returned-world-invalid ({})", f.key), f.detail));
                     }
                     let dr = catch_unwind(AssertUnwindSafe(|| drop(ManuallyDrop::into_inner(ex))));
@@ -624,9 +629,19 @@ impl BaseSer {
 }
 
 fn serialize_bases(depth: usize, limit: usize) -> Vec<BaseSer> {
+    let mut out = serialize_base_list(bases(depth));
+    // keep distinct serializations only, smallest first
+    out.sort_by_key(|b| b.compact.len());
+    out.dedup_by(|a, b| a.json == b.json);
+    out.truncate(limit);
+    out.extend(serialize_base_list(crate::extra_ser_bases()));
+    out
+}
+
+fn serialize_base_list(list: Vec<Vec<u8>>) -> Vec<BaseSer> {
     let ops = base_alphabet();
     let mut out = Vec::new();
-    for h in bases(depth) {
+    for h in list {
         arena::begin(0);
         comp::ledger_begin();
         let ser = {
@@ -645,10 +660,6 @@ fn serialize_bases(depth: usize, limit: usize) -> Vec<BaseSer> {
         let _ = arena::end();
         out.push(ser);
     }
-    // keep distinct serializations only, smallest first
-    out.sort_by_key(|b| b.compact.len());
-    out.dedup_by(|a, b| a.json == b.json);
-    out.truncate(limit);
     out
 }
 
@@ -941,9 +952,52 @@ pub fn main_c11(tier: &str, threads: usize, evidence: Option<&str>, replay_dir: 
             });
         }
     });
-    let found = found.into_inner().unwrap();
+    let mut found = found.into_inner().unwrap();
     let tt = totals.into_inner().unwrap();
-    let machinery = machinery.into_inner().unwrap();
+    let mut machinery = machinery.into_inner().unwrap();
+    // second registry (first component unused by every table): every Deserialize call position of a component returning
+    // an error, judged by the ledger and the allocator (src/shifted.rs); run in a child, crashes attributed to the last case
+    let mut shifted_cases = 0u64;
+    if prop == "C11" || prop == "C05" {
+        let mut restart_after: Option<String> = None;
+        let mut rounds = 0;
+        loop {
+            rounds += 1;
+            let out = std::process::Command::new(&exe).args(["--mode", "c11-shifted"]).envs(restart_after.iter().map(|c| ("SHIFTED_SKIP_TO", c.clone()))).output().expect("spawn shifted");
+            let text = String::from_utf8_lossy(&out.stdout).to_string();
+            let mut last_case = String::new();
+            let mut done = false;
+            for line in text.lines() {
+                if let Some(c) = line.strip_prefix("SCASE ") {
+                    last_case = c.to_string();
+                } else if let Some(rest) = line.strip_prefix("SFAIL ") {
+                    let (key, detail) = rest.split_once(" :: ").unwrap_or((rest, ""));
+                    let key = format!("{}_(registry_with_an_unused_first_component)", key.replace(' ', "_"));
+                    if let Some(x) = found.iter_mut().find(|x| x.0 == key) {
+                        x.3 += 1;
+                    } else {
+                        found.push((key, detail.to_string(), format!("{{\"engine\":\"fault-c11-shifted\",\"tier\":\"{}\",\"case\":{}}}", tier, util::json_str(&last_case)), 1));
+                    }
+                } else if let Some(n) = line.strip_prefix("SDONE ") {
+                    shifted_cases = n.trim().parse().unwrap_or(0);
+                    done = true;
+                }
+            }
+            if done {
+                break;
+            }
+            // the child died inside `last_case`
+            let key = "process-abort_(registry_with_an_unused_first_component)".to_string();
+            if !found.iter().any(|x| x.0 == key) {
+                found.push((key, format!("the process died in case {}", last_case), format!("{{\"engine\":\"fault-c11-shifted\",\"tier\":\"{}\",\"case\":{}}}", tier, util::json_str(&last_case)), 1));
+            }
+            if last_case.is_empty() || rounds > 200 {
+                machinery.push("shifted-registry child died outside a case".into());
+                break;
+            }
+            restart_after = Some(last_case);
+        }
+    }
     let dir = format!("{}/{}", replay_dir, prop);
     let _ = std::fs::create_dir_all(&dir);
     let mut found_json = Vec::new();
@@ -970,7 +1024,7 @@ pub fn main_c11(tier: &str, threads: usize, evidence: Option<&str>, replay_dir: 
             "evaluations": total, "distinct_nontrivial": tt.0 + tt.1,
             "rule": "inputs = every single edit (delete / duplicate / swap / alter at every position, duplicate / delete of every whole group with the enclosing declared length adjusted; alterations per token kind: integers to {0,1,v-1,v+1,v+len,MAX,v^2}, identifier bytes every single-bit flip, declared lengths +-1/0/None, field and struct names renamed, type changes) of every base serialization in compact and human-readable token encodings, each also with every struct written as a sequence (serde's visit_seq branch, as bincode/postcard use it), plus for JSON text (objects, and structs as arrays): truncation at every byte offset, every value-tree edit and every duplicated key; thorough adds all swaps and all pairs of non-swap edits on the 6 smallest bases. non-trivial = reached brood's deserializer and was judged (Err or Ok), i.e. not rejected by the format layer with a panic of its own",
             "samples": sample_cases,
-            "bases": bases.len(), "inputs": cases.len(),
+            "bases": bases.len(), "inputs": cases.len(), "second_registry_error_positions": shifted_cases,
             "outcomes": {"ok_world_returned": tt.0, "err_returned": tt.1, "environment_panics_skipped": tt.2, "process_aborts": tt.6},
             "outcomes_per_encoding_ok_err_env": tt.5,
             "err_paths_that_leaked_values_allowed": tt.3, "continuation_executions_on_returned_worlds": tt.4,
